@@ -244,7 +244,8 @@ fn run_threads(case: &Case, out: &mut Out) {
   let log = Arc::new(Mutex::new(Vec::<Notif>::new()));
   let pipe_expr: &SExp = &case.field("pipe")[0];
   let pipeline = build_threads(pipe_expr, &ctx);
-  let mut sub: Option<BoxSubscriptionThreads> = None;
+  // (behind a mutex so that event `rq` can ask it from another thread)
+  let sub: Arc<Mutex<Option<BoxSubscriptionThreads>>> = Arc::new(Mutex::new(None));
   let two = case.has("twosubs");
   let log2 = Arc::new(Mutex::new(Vec::<Notif>::new()));
   let mut sub2: Option<BoxSubscriptionThreads> = None;
@@ -284,7 +285,7 @@ fn run_threads(case: &Case, out: &mut Out) {
         } else {
           pipeline.clone().actual_subscribe(ProbeT(log.clone(), if case.has("fb") { Some(ctx.subject(0)) } else { None }))
         };
-        sub = Some(u);
+        *sub.lock().unwrap() = Some(u);
         let sfx = suffix(case, &exec);
         out.emit(k, drain(&log) + &sfx);
       }
@@ -363,15 +364,59 @@ fn run_threads(case: &Case, out: &mut Out) {
         out.emit(k, drain(&log) + &sfx);
       }
       "unsub" => {
-        if let Some(u) = sub.take() {
+        let u = sub.lock().unwrap().take();
+        if let Some(u) = u {
           u.unsubscribe();
         }
         let sfx = suffix(case, &exec);
         out.emit(k, drain(&log) + &sfx);
       }
+      "rq" => {
+        // the event ev[1..] (an emission or a scheduler event) on this thread; while the probe is called during it, ANOTHER
+        // thread asks the subscription is_closed().  (If that query has to wait for a cell the delivering thread holds, it is
+        // answered after the event; both answers are legal, `closed` followed by a delivery is not.)
+        let started = Arc::new(std::sync::atomic::AtomicBool::new(false));
+        let slot: Arc<Mutex<Option<std::thread::JoinHandle<()>>>> = Arc::new(Mutex::new(None));
+        let answer: Arc<Mutex<Option<bool>>> = Arc::new(Mutex::new(None));
+        let (st2, slot2, ans2, sub2c) = (started.clone(), slot.clone(), answer.clone(), sub.clone());
+        *RACE.lock().unwrap() = Some(Box::new(move || {
+          let st3 = st2.clone();
+          let h = std::thread::spawn(move || {
+            st3.store(true, std::sync::atomic::Ordering::SeqCst);
+            let c = sub2c.lock().unwrap().as_ref().map_or(true, |u| u.is_closed());
+            *ans2.lock().unwrap() = Some(c);
+          });
+          while !st2.load(std::sync::atomic::Ordering::SeqCst) {
+            std::thread::yield_now();
+          }
+          std::thread::sleep(std::time::Duration::from_millis(40));
+          *slot2.lock().unwrap() = Some(h);
+        }));
+        let inner = &ev[1..];
+        if inner[0].atom() == "emit" {
+          let mut s = ctx.subject(inner[1].nat());
+          match Notif::parse(&inner[2]) {
+            Notif::Next(v) => s.next(v),
+            Notif::Error(e) => s.error(e),
+            Notif::Complete => s.complete(),
+          }
+        } else if !time_event(inner, &exec) {
+          panic!("rq: unknown inner event");
+        }
+        let _unused = RACE.lock().unwrap().take();
+        if let Some(h) = slot.lock().unwrap().take() {
+          let _ = h.join();
+        }
+        let r = match *answer.lock().unwrap() {
+          Some(c) => format!(" rclosed={}", c as u8),
+          None => " rclosed=-".to_string(),
+        };
+        let sfx = suffix(case, &exec);
+        out.emit(k, drain(&log) + &sfx + &r);
+      }
       "q" => match ev[1].atom() {
         "closed" => {
-          let c = sub.as_ref().map_or(true, |u| u.is_closed());
+          let c = sub.lock().unwrap().as_ref().map_or(true, |u| u.is_closed());
           if locktrace::is_on() {
             // the acquisitions of the query itself belong to no event's lock trace
             let _ = locktrace::take();
